@@ -110,10 +110,12 @@ impl Expect {
         match (self, o) {
             (_, Outcome::Panic) => false,
             (_, Outcome::Abort) => true,
-            // a variant the model does not know (the error type has grown): a new dedicated
-            // error for this kind of bad input is still a dedicated error
-            (Expect::Err(_), Outcome::Err(ErrClass::Other)) => true,
-            (Expect::OkOrErr(_), Outcome::Err(ErrClass::Other)) => true,
+            // (A variant the model does not know is NOT accepted in place of the dedicated one. For
+            // a while it was - "a new dedicated error is still a dedicated error" - but the check
+            // cannot tell a new dedicated variant from a new wrong one, and real violations hid
+            // behind that: zero reported as `NotANumber`, a missing maximum step reported as
+            // `StepBoundsInverted` (DESIGN 8.8). "Their dedicated error" is read as the variant
+            // the shipped API has for that kind of bad input.)
             (Expect::Ok, Outcome::Ok) => true,
             (Expect::Err(c), Outcome::Err(d)) => c == d,
             (Expect::OkOrErr(_), Outcome::Ok) => true,
